@@ -74,7 +74,7 @@ func checkC08(ctx *RunCtx) int {
 	})
 	return finish(ctx, rep, &CheckSpec{
 		Prop: "C08", Level: "exploration", EvalCounter: "successful_next", NonTrivSet: "nontrivial08",
-		Rule:        "random histories of join(any/specific/out-of-range)/sit-in/reserve/leave/next on tables of 2-10 seats plus targeted join-between scenarios; after every successful Next(): the three positions are on playable seats (occupied, active, not reserved - the set the table deals in), heads-up and 3+ blind rules; a deal-in watch armed when a player joins and sits in on a seat strictly between dealer and big blind that was empty when positions were assigned, disarmed by any other operation, requires 'dealt in iff the button has passed the seat'; Next() is also called while another goroutine keeps one or two seated players sitting out and back in (or leaving and re-joining); with that goroutine parked, the positions must fit the playable set for some status the toggled seats could have had during the move (no sequential explanation otherwise); a quarter of the histories hand each position set to the real engine the way table.setupPosition/startGame do and require blinds and first actor on the expected seats. Non-trivial = distinct (table size, dealer, playable set)",
+		Rule:        "random histories of join(any/specific/out-of-range)/sit-in/reserve/leave/next on tables of 2-10 seats plus targeted join-between scenarios; after every successful Next(): the three positions are on playable seats (occupied, active, not reserved - the set the table deals in), heads-up and 3+ blind rules; a deal-in watch armed when a player joins and sits in on a seat strictly between dealer and big blind that was empty when positions were assigned, disarmed by any other operation, requires 'dealt in iff the button has passed the seat'; a waiting watch states the same hand by hand - the players left waiting on closed seats between dealer and big blind by one assignment, if nobody else moves until the next, are not dealt in unless the button passed them (collapse scenarios with late sit-ins and quiet hands feed it); Next() is also called while another goroutine keeps one or two seated players sitting out and back in (or leaving and re-joining); with that goroutine parked, the positions must fit the playable set for some status the toggled seats could have had during the move (no sequential explanation otherwise); a quarter of the histories hand each position set to the real engine the way table.setupPosition/startGame do and require blinds and first actor on the expected seats. Non-trivial = distinct (table size, dealer, playable set)",
 		Required:    []string{"class_heads_up_positions", "class_three_plus_positions", "deal_in_watches_armed", "deal_in_watches_resolved", "engine_handoffs", "concurrent_next_checked", "class_position_on_toggled_seat"},
 		Assumptions: []string{"a seat vacated during the hand stays active and the button may land on it: outside the claim, the watch is not armed there", "the table object is timer/goroutine driven and its tests hang in this sandbox: its setupPosition/startGame logic is re-enacted, not run"},
 	})
@@ -337,9 +337,9 @@ func checkC09(ctx *RunCtx) int {
 	return finish(ctx, rep, &CheckSpec{
 		Extra: extra,
 		Prop:  "C09", Level: "exploration", EvalCounter: "quiescent_checks", NonTrivSet: "nontrivial",
-		Rule:        "random tournament histories against a world of real tables that follow the regulator's instructions (registration batches 1..4*max and bursts of 300, pending -> running -> registration closed at random points, syncs with 0-3 eliminations on random tables, releases, breaks, unknown-table calls), all settings 2<=min<=max<=10 plus 9/6, and long tournaments down to the final table. After every completed step: every live player is in exactly one of {waiting queue (hook), one table}, nobody is handed out twice or after elimination, GetPlayerCount/GetTableCount/GetTable(id).PlayerCount equal the real numbers; unknown-table syncs (also the repeated last report of a broken table) and late registrations must be refused with the observable state unchanged. Histories include re-entries under the same id, registration batches that are windows of one roster array, names handed over in one message buffer that the caller overwrites and re-uses after every call, tables that keep the list they were handed, releases delivered late (players counted as in transit) and a pause (status back to pending and forward). A concurrent world (registrars and table owners on different goroutines, ledger at quiescence) runs in-process and in a -race build. evaluations = quiescent-point checks; non-trivial = distinct histories",
-		Required:    []string{"class_players_waiting", "class_registration_after_deadline", "class_unknown_table", "class_table_broken", "top_ups", "releases", "long_tournaments", "class_final_table_reached", "class_re_entry", "class_delayed_release", "class_paused", "class_late_report_of_broken_table", "class_caller_buffer_reused", "concurrent_quiescent_checks", "race_build_concurrent_quiescent_checks"},
-		Assumptions: []string{"ReleasePlayers never validates its table id and is legitimately called with the id of a table the regulator has just deleted; 'unknown table is refused' is asserted for SyncState/GetTable only", "tables follow the protocol of the repo's own tests: eliminate, report, seat the returned players, release exactly the requested number"},
+		Rule:        "random tournament histories against a world of real tables that follow the regulator's instructions (registration batches 1..4*max and bursts of 300, pending -> running -> registration closed at random points, syncs with 0-3 eliminations on random tables, releases, breaks, unknown-table calls), all settings 2<=min<=max<=10 plus 9/6, and long tournaments down to the final table. After every completed step: every live player is in exactly one of {waiting queue (hook), one table}, nobody is handed out twice or after elimination, GetPlayerCount/GetTableCount/GetTable(id).PlayerCount equal the real numbers; unknown-table syncs (also the repeated last report of a broken table) and late registrations must be refused with the observable state unchanged. Histories include re-entries under the same id, registration batches that are windows of one roster array, names handed over in one message buffer that the caller overwrites and re-uses after every call, tables that keep the list they were handed, releases delivered late (players counted as in transit), a pause (status back to pending and forward) and players who bust and register again before their table has reported the bust (unreported eliminations are counted on the regulator's side until the report). A further block of histories runs with fault injection at the two host callbacks: one call in 2..9 of RequestTableFn / AssignPlayersFn returns an error; players named in a failed call count as bounced (the host knows them), everything else - nobody in two places, nobody else missing, player total, table count, per-table counts - is required as without faults. A concurrent world (registrars and table owners on different goroutines, ledger at quiescence) runs in-process and in a -race build. evaluations = quiescent-point checks; non-trivial = distinct histories",
+		Required:    []string{"class_players_waiting", "class_registration_after_deadline", "class_unknown_table", "class_table_broken", "top_ups", "releases", "long_tournaments", "class_final_table_reached", "class_re_entry", "class_delayed_release", "class_paused", "class_late_report_of_broken_table", "class_caller_buffer_reused", "class_re_entry_before_the_bust_is_reported", "host_faults_injected", "class_open_refused_by_host", "class_assign_refused_by_host", "concurrent_quiescent_checks", "race_build_concurrent_quiescent_checks"},
+		Assumptions: []string{"with a failing host the unchanged regulator does not queue the players of the failed call again; that loss is outside the property's quantifier (tables that follow its instructions) and is tolerated for exactly those players, named in the call the host failed", "ReleasePlayers never validates its table id and is legitimately called with the id of a table the regulator has just deleted; 'unknown table is refused' is asserted for SyncState/GetTable only", "tables follow the protocol of the repo's own tests: eliminate, report, seat the returned players, release exactly the requested number"},
 	})
 }
 
@@ -351,8 +351,8 @@ func checkC19(ctx *RunCtx) int {
 	return finish(ctx, rep, &CheckSpec{
 		Extra: extra,
 		Prop:  "C19", Level: "exploration", EvalCounter: "tables_opened", NonTrivSet: "nontrivial",
-		Rule:     "the same tournament histories with the capacity monitor inside the callbacks: every list given to requestTableFn has at most max players, every table's real membership stays <= max after each assignPlayersFn / SyncState hand-out, no table is opened while pending or before min players have registered, every table opened by the initial allocation (the first ever) has >= min players; settings grid 2<=min<=max<=10, registrant counts around multiples of max, late batches above capacity, delayed releases, pauses, re-entries; the concurrent world (capacity at quiescence) in-process and in a -race build. evaluations = tables opened; non-trivial = distinct histories",
-		Required: []string{"class_initial_allocation_tables", "class_initial_allocation_with_remainder", "class_late_batch_above_capacity", "class_late_tables", "assignments", "top_ups", "concurrent_quiescent_checks", "race_build_concurrent_quiescent_checks"},
+		Rule:     "the same tournament histories with the capacity monitor inside the callbacks: every list given to requestTableFn has at most max players, every table's real membership stays <= max after each assignPlayersFn / SyncState hand-out, no table is opened while pending or before min players have registered, every table opened by the initial allocation (the first ever) has >= min players; settings grid 2<=min<=max<=10, registrant counts around multiples of max, late batches above capacity, delayed releases, pauses, re-entries; a block of histories with fault injection at the host callbacks (one call in 2..9 fails), where a request for more than max players or a hand-over that would take a table above max counts whether or not the host then fails the call; the concurrent world (capacity at quiescence) in-process and in a -race build. evaluations = tables opened; non-trivial = distinct histories",
+		Required: []string{"class_initial_allocation_tables", "class_initial_allocation_with_remainder", "class_late_batch_above_capacity", "class_late_tables", "assignments", "top_ups", "host_faults_injected", "class_open_refused_by_host", "class_assign_refused_by_host", "concurrent_quiescent_checks", "race_build_concurrent_quiescent_checks"},
 	})
 }
 
@@ -364,8 +364,8 @@ func checkC20(ctx *RunCtx) int {
 	return finish(ctx, rep, &CheckSpec{
 		Extra: extra,
 		Prop:  "C20", Level: "exploration", EvalCounter: "fixpoint_searches", NonTrivSet: "nontrivial20",
-		Rule:        "from the end state of every random history and from checkpoints inside long tournaments (any phase after the start): sweeps that sync every table once - in a fresh random order every sweep, or fullest table first, or emptiest table first - with no eliminations, also while registration is on hold (status back to pending), and carry out all instructions, until a sweep asks for no release, hand-out or break; bounded by (tables at start + 8) sweeps - convergence is restated as bounded progress, the bound exposes oscillation and does not certify a constant; a table told to break must release its whole membership and each of those players must then be queued or seated elsewhere; the concurrent world must settle by sweeps after its concurrent phase too. evaluations = fixpoint searches; non-trivial = distinct histories whose end state needed at least one rebalancing sweep; histogram of sweeps needed is in coverage.histograms",
-		Required:    []string{"fixpoint_searches", "class_rebalancing_needed", "class_table_broken", "class_sweeps_fullest_table_first", "class_sweeps_emptiest_table_first", "class_sweeps_while_registration_on_hold"},
+		Rule:        "from the end state of every random history and from checkpoints inside long tournaments (any phase after the start): sweeps that sync every table once - in a fresh random order every sweep, or fullest table first, or emptiest table first - with no eliminations, also while registration is on hold (status back to pending), and carry out all instructions, until a sweep asks for no release, hand-out or break; bounded by (tables at start + 8) sweeps - convergence is restated as bounded progress, the bound exposes oscillation and does not certify a constant; a table told to break must release its whole membership and each of those players must then be queued or seated elsewhere, and a table with players is never told to break while it is the only table; the searches also start from the end states of histories with fault injection at the host callbacks, with the faults stopped for the search; the concurrent world must settle by sweeps after its concurrent phase too. evaluations = fixpoint searches; non-trivial = distinct histories whose end state needed at least one rebalancing sweep; histogram of sweeps needed is in coverage.histograms",
+		Required:    []string{"fixpoint_searches", "class_rebalancing_needed", "class_table_broken", "class_sweeps_fullest_table_first", "class_sweeps_emptiest_table_first", "class_sweeps_while_registration_on_hold", "class_fixpoint_search_after_host_faults"},
 		Assumptions: []string{"liveness restated as bounded progress: no finite run decides 'eventually settles'"},
 	})
 }
